@@ -158,7 +158,7 @@ int main(void)
      * query; nothing is left to check here (KF_ONLY runs the full harness and must fail). */
     VWITNESS("query excluded: class with a negative-step parameter range (known finding)");
     return 0;
-#endif
+#else
     the_ctx.nb_vp = 1; the_ctx.my_rank = MYRANK; the_ctx.virtual_processes[0] = &the_vp;
     the_vp.parsec_context = &the_ctx; the_vp.execution_streams[0] = &the_es;
     the_es.virtual_process = &the_vp; the_es.context_mempool = &the_mp;
@@ -175,4 +175,5 @@ int main(void)
 #endif
 #endif
     return 0;
+#endif
 }
